@@ -212,9 +212,9 @@ def gen_spec(rng, **over):
     # ---- leaks
     if pr['p_leak'] > 0:
         dur = opt['duration']
-        cand = [j['name'] for j in spec['junctions']]
+        cand = [j['name'] for j in spec['junctions']] + [t['name'] for t in spec['tanks']]
         for nm in cand:
-            if rng.random() < pr['p_leak']:
+            if rng.random() < pr['p_leak'] * (3.0 if nm.startswith('T') else 1.0):
                 st = rng.choice([0, 0, hyd, 2 * hyd, hyd + hyd // 3, 1234])
                 en = rng.choice([None, None, dur - hyd, dur // 2 + 77, st + hyd, st + 2 * hyd + 91])
                 if en is not None and en <= st:
